@@ -243,6 +243,14 @@ static void predirty(ST::conversion_result &r)
     }
 }
 
+// whatever an unrelated earlier C library call left in errno must not influence a conversion
+static int stale_errno()
+{
+    static unsigned n = 0;
+    static const int vals[] = {0, EINVAL, ERANGE, ENOENT, EDOM};
+    return vals[n++ % 5];
+}
+
 // ---------------------------------------------------------------- parsing arbitrary text
 static void parse_case(const S &text, int base)
 {
@@ -269,7 +277,9 @@ static void parse_case(const S &text, int base)
         if (empty) want = 0;                                                                                                 \
         ST::conversion_result r;                                                                                             \
         predirty(r);                                                                                                         \
+        errno = stale_errno();                                                                                               \
         RT got = st->libcall_r;                                                                                              \
+        errno = stale_errno();                                                                                               \
         RT got2 = st->libcall;                                                                                               \
         vrt::evals(2);                                                                                                       \
         if (got != want || r.ok() != wok || r.full_match() != wfull)                                                         \
